@@ -7,6 +7,7 @@ import (
 	"context"
 	"fmt"
 	"io"
+	"net"
 	"sync"
 
 	core_test "github.com/aperturerobotics/bifrost/core/test"
@@ -15,6 +16,9 @@ import (
 	"github.com/aperturerobotics/bifrost/peer"
 	peer_controller "github.com/aperturerobotics/bifrost/peer/controller"
 	"github.com/aperturerobotics/bifrost/transport"
+	"github.com/aperturerobotics/bifrost/transport/common/dialer"
+	"github.com/aperturerobotics/bifrost/transport/common/pconn"
+	transport_quic "github.com/aperturerobotics/bifrost/transport/common/quic"
 	transport_controller "github.com/aperturerobotics/bifrost/transport/controller"
 	"github.com/aperturerobotics/controllerbus/bus"
 	"github.com/aperturerobotics/controllerbus/controller"
@@ -25,6 +29,7 @@ import (
 	"github.com/sirupsen/logrus"
 
 	"verif/sim/dsim"
+	"verif/sim/worlds/pnet"
 	"verif/sim/worlds/sig"
 )
 
@@ -75,6 +80,7 @@ type TC struct {
 	P    *sig.Party
 	Ctrl *transport_controller.Controller
 	Tpt  *SimTransport
+	Quic *pconn.Transport
 }
 
 // AddNode builds a bus. Identities lists the parties whose peer controllers run on
@@ -295,3 +301,57 @@ func (h *HandlerCtl) HandleMountedStream(ctx context.Context, ms link.MountedStr
 }
 
 var _ = fmt.Sprintf
+
+// RecHandler wraps the TransportHandler the controller hands to a transport constructor
+// and records every link the transport reports (C03 oracle: no hook needed).
+type RecHandler struct {
+	Inner transport.TransportHandler
+	OnEst func(l link.Link)
+}
+
+func (r *RecHandler) HandleLinkEstablished(l link.Link) {
+	if r.OnEst != nil {
+		r.OnEst(l)
+	}
+	r.Inner.HandleLinkEstablished(l)
+}
+func (r *RecHandler) HandleLinkLost(l link.Link) { r.Inner.HandleLinkLost(l) }
+
+// AddQuicTransport starts a real transport controller whose transport is the real
+// pconn/QUIC transport over the given simulated PacketConn.
+func (nd *Node) AddQuicTransport(name, idn string, pc net.PacketConn, static map[string]*dialer.DialerOpts, onEst func(l link.Link)) *TC {
+	n := nd.N
+	p := n.Party(idn)
+	tc := &TC{Node: nd, Name: name, P: p}
+	ctor := func(ctx context.Context, le *logrus.Entry, pkey crypto.PrivKey, handler transport.TransportHandler) (transport.Transport, error) {
+		h := &RecHandler{Inner: handler, OnEst: onEst}
+		opts := &pconn.Opts{Quic: &transport_quic.Opts{MaxIdleTimeoutDur: "60s", DisableKeepAlive: true, DisablePathMtuDiscovery: true}}
+		t, err := pconn.NewTransport(ctx, le, pkey, h, opts, 0, pc, func(a string) (net.Addr, error) { return pnet.Addr(a), nil }, static)
+		if err != nil {
+			return nil, err
+		}
+		tc.Quic = t
+		return &simUDP{t}, nil
+	}
+	info := controller.NewInfo("verif/quic/"+name, semver.MustParse("0.0.1"), "pconn transport "+name)
+	tc.Ctrl = transport_controller.NewController(n.Log, nd.Bus, info, p.ID, false, ctor)
+	rel, err := nd.Bus.AddController(nd.ctx, tc.Ctrl, nil)
+	if err != nil {
+		panic(err)
+	}
+	nd.rels = append(nd.rels, rel)
+	if _, err := tc.Ctrl.GetTransport(nd.ctx); err != nil {
+		panic(err)
+	}
+	nd.TCs = append(nd.TCs, tc)
+	return tc
+}
+
+// simUDP is what transport/udp.UDP is for the real UDP socket: the pconn transport plus
+// the transport-type matcher that makes it a dialer.TransportDialer.
+type simUDP struct{ *pconn.Transport }
+
+func (u *simUDP) MatchTransportType(t string) bool { return t == "sim" }
+
+// Ctx returns the node context.
+func (nd *Node) Ctx() context.Context { return nd.ctx }
